@@ -57,6 +57,9 @@ def random_history(rng, two):
             # a whole named graph emptied through a graph-level entry point (DROP / CLEAR / DELETE WHERE / remove_context): a removal like any
             # other, undone by rollback (single-wrapper histories: it reaches every subject of the graph)
             evs.append({"op": "tx_remove", "w": w, "g": g, "pat": ["_", "_", "_"], "how": rng.choice(["drop", "clear", "remove_context", "delete_where"]) if g != "b1" else "remove_context"})       # (a blank-node-named graph has no name in SPARQL text)
+        elif r < 0.5 and not two:
+            pat = [t[0]] + [x if rng.random() < 0.5 else "_" for x in t[1:]]
+            evs.append({"op": "tx_remove", "w": w, "g": "gx", "pat": pat, "how": "cg_ctx"})
         elif r < 0.8:
             pat = [t[0]] + [x if rng.random() < 0.5 else "_" for x in t[1:]]
             evs.append({"op": "tx_remove", "w": w, "g": g if rng.random() < 0.7 else "*", "pat": pat})
